@@ -285,12 +285,21 @@ class Ctx:
         if not scs:
             raise Inconclusive("empty trace %s" % trace_path)
         nlines = sum(len(v) for v in lines_by_sc.values())
+        size = {sc: sum(len(x) for x in v) for sc, v in lines_by_sc.items()}
         if shards is None:
-            shards = max(1, min(NCPU, nlines // 4000 + 1))
+            # by lines and by bytes: TLC's cost per event grows with the size of the file it has loaded
+            shards = max(1, min(NCPU, max(nlines // 4000, sum(size.values()) // (2 << 20)) + 1))
         shards = max(1, min(shards, len(scs)))
         groups = [[] for _ in range(shards)]
+        load = [0] * shards
         for i, sc in enumerate(scs):
-            groups[i % shards].append(sc)
+            if size[sc] > (64 << 10):          # big scenarios go to the least loaded shard, the rest round-robin
+                g = load.index(min(load))
+            else:
+                g = i % shards
+            groups[g].append(sc)
+            load[g] += size[sc]
+        groups = [g for g in groups if g]
         files = []
         for gi, g in enumerate(groups):
             p = os.path.join(self.work, "%s_shard%d_%d.ndjson" % (module, len(self.tlc_runs), gi))
